@@ -229,7 +229,7 @@ struct FitCase { VarioSpec vs; int istruct, icons, iopt, wmode, maxiter; };
 // everything below runs in the forked child; lines "V\tkey\twhat" and "O\toutcome" go to the parent
 static int child_fit(int wfd, const FitCase& fc)
 {
-  struct rlimit rl; rl.rlim_cur = 200; rl.rlim_max = 210; setrlimit(RLIMIT_CPU, &rl);  // CPU seconds: independent of the machine load
+  struct rlimit rl; rl.rlim_cur = 600; rl.rlim_max = 610; setrlimit(RLIMIT_CPU, &rl);  // CPU seconds: independent of the machine load
   std::string outbuf;
   auto V = [&](const std::string& key, const std::string& what) { outbuf += "V\t" + key + "\t" + what + "\n"; };
   auto O = [&](const std::string& o) { outbuf += "O\t" + o + "\n"; };
@@ -326,6 +326,7 @@ static int child_fit(int wfd, const FitCase& fc)
     {
       VectorDouble r = cova->getRanges();
       bool iso = std::fabs(r[0] - r[1]) <= 1e-9 * std::max(r[0], r[1]);
+      if (fc.iopt == 1 || fc.iopt == 2 || fc.iopt == 4) O(std::string("option-judged:") + OPT_NAMES[fc.iopt]);
       if ((fc.iopt == 1 || fc.iopt == 4) && !iso) V(std::string("option:") + OPT_NAMES[fc.iopt] + ":anisotropic-result", "ranges " + vstr(r) + " in structure " + cname);
       bool rot0 = true;
       for (double a : an) if (std::fabs(a) > 1e-9) rot0 = false;
@@ -343,6 +344,7 @@ static int child_fit(int wfd, const FitCase& fc)
       const CovAniso* cova = model->getCova(ic);
       if (cova->hasRange() <= 0 || cova->isIsotropic()) continue;
       if (!have) { ref = angles_of[ic]; have = true; continue; }
+      O("option-judged:lock_samerot");
       for (size_t d = 0; d < ref.size(); d++)
         if (std::fabs(ref[d] - angles_of[ic][d]) > 1e-6) { V("option:lock_samerot:different-rotations", "angles " + vstr(ref) + " vs " + vstr(angles_of[ic])); break; }
     }
@@ -374,6 +376,7 @@ static int child_fit(int wfd, const FitCase& fc)
       std::string key;
       int ndirs = vario->getDirectionNumber();
       if (it.elem == 2 && ndirs <= 2) key = "constraint:angle-ignored-when-rotation-is-not-inferred";  // ndir <= ndim: auth_rotation is switched off internally
+      else if (it.elem == 2 && fc.iopt == 3 && ncov0 > 1) key = "constraint:angle-ignored-with-lock_samerot";  // the shared rotation is a parameter of the first rotated structure only
       else if (it.elem == 4 && fc.iopt == 6) key = "constraint:sill-bound-applied-to-its-square-root-when-goulard-off";  // value used as a bound on the AIC coefficient
       else if (ncov < ncov0) key = std::string("constraint:violated-after-structure-reduction:") + (it.elem == 1 ? "range" : it.elem == 2 ? "angle" : it.elem == 3 ? "param" : "sill");
       else if (fc.maxiter == 1) key = std::string("constraint:violated-when-not-converged:") + (it.elem == 1 ? "range" : it.elem == 2 ? "angle" : it.elem == 3 ? "param" : "sill");
@@ -387,7 +390,10 @@ static int child_fit(int wfd, const FitCase& fc)
     {
       double tot = 0; for (int ic = 0; ic < ncov; ic++) tot += model->getCova(ic)->getSill(a, a);
       O("constraint-judged:constantSill");
-      if (std::fabs(tot - 1.) > 1e-6) V("constraint:violated:constantSill=1", "total sill of variable " + std::to_string(a) + " = " + fmt(tot));
+      if (std::fabs(tot - 1.) > 1e-6)
+        V(ncov < ncov0 ? "constraint:constant-sill-lost-by-structure-reduction" : "constraint:violated:constantSill=1",
+          "total sill of variable " + std::to_string(a) + " = " + fmt(tot) + " (structures kept " + std::to_string(ncov) + "/" + std::to_string(ncov0) + ")");
+      O(std::fabs(tot - 1.) <= 1e-12 ? "constant-sill-exact" : std::fabs(tot - 1.) <= 1e-6 ? "constant-sill-within-1e-6" : "constant-sill-off");
     }
   }
   // save / reload / krige
@@ -444,64 +450,22 @@ static int child_fit(int wfd, const FitCase& fc)
   return 0;
 }
 
-static void run_fit_part(Ctx& C, int nvar)
+// one fit in a forked child; its observations come back as lines (see child_fit)
+static void run_one_fit(Ctx& C, const FitCase& fc, uint64_t id)
 {
-  auto vm = vario_menu(C.thorough(), nvar);
-  // configuration menu: (constraint set, option set) pairs and Option_AutoFit pairs
-  std::vector<std::pair<int, int>> co;
-  if (C.thorough() && nvar == 1) { for (int c = 0; c < 10; c++) for (int o = 0; o < 8; o++) co.push_back({c, o}); }
-  else if (C.thorough())
-  {
-    for (int o = 0; o < 8; o++) co.push_back({0, o});
-    for (int c = 1; c < 10; c++) { co.push_back({c, 0}); if (c != 7) co.push_back({c, 6}); co.push_back({c, 5}); }
-  }
-  else if (nvar == 1)
-  {
-    for (int o = 0; o < 8; o++) co.push_back({0, o});
-    for (int c = 1; c < 10; c++) co.push_back({c, 0});
-    co.push_back({1, 6}); co.push_back({6, 6}); co.push_back({3, 5}); co.push_back({9, 5});
-  }
-  else { for (int o : {0, 5, 6}) co.push_back({0, o}); for (int c : {1, 2, 6, 7, 3}) co.push_back({c, 0}); }
-  std::vector<std::pair<int, int>> am = {{2, 1000}, {0, 1}};
-  if (C.thorough()) am = {{2, 1000}, {0, 1}, {1, 1000}, {0, 1000}, {3, 50}};
-  if (nvar > 1) am.resize(C.thorough() ? 3 : 1);
-  Space sp;
-  sp.axis("vario", (int)vm.size()).axis("structures", 10).axis("config", (int)co.size()).axis("autofit", (int)am.size());
-  for_each_case(C, sp, [&](uint64_t id, const std::vector<int>& idx) {
-    FitCase fc{vm[idx[0]], idx[1], co[idx[2]].first, co[idx[2]].second, am[idx[3]].first, am[idx[3]].second};
-    // Sub-menus (regular, not sampled): every variogram meets every structure set with the default configuration and the first
-    // Option_AutoFit pair; the other configurations x Option_AutoFit pairs are taken on one synthetic variogram in 32 (quick) / 8 (thorough)
-    // and on the genuine variograms (quick: even patterns, first Option_AutoFit pair only).
-    {
-      bool dflt = idx[2] == 0;
-      bool th = C.thorough();
-      if (fc.vs.kind == 1)
-      {
-        int stride = th ? 8 : 32;
-        if (!dflt && (fc.vs.code % stride) != (idx[2] % stride)) return;
-        if (!dflt && idx[3] != 0) return;
-        if (!th && idx[3] != 0 && (fc.vs.code % 4) != 0) return;
-        if (fc.vs.empty >= 0 && idx[3] >= 2) return;
-      }
-      else if (fc.vs.kind == 2)
-      {
-        int stride = th ? 4 : 9;
-        if (!dflt && (fc.vs.code % stride) != (idx[2] % stride)) return;
-        if (idx[3] != 0) return;
-      }
-      else
-      {
-        if (!th && !dflt && (idx[3] != 0 || (fc.vs.pat[0] % 4) != 0)) return;
-        if (!th && nvar == 2 && fc.vs.vp == 1) return;
-        if (th && idx[3] >= 2 && !dflt) return;
-      }
-    }
     std::string kase = std::to_string(id);
     std::string what0 = fc.vs.desc + " | structures=" + STRUCT_NAMES[fc.istruct] + " constraints=" + CONS_NAMES[fc.icons] + " option=" + OPT_NAMES[fc.iopt] +
                         " wmode=" + std::to_string(fc.wmode) + " maxiter=" + std::to_string(fc.maxiter);
     if (C.verbose) fprintf(stderr, "case %s: %s\n", kase.c_str(), what0.c_str());
-    ChildResult r = run_child([&](int wfd) { return child_fit(wfd, fc); }, 900., 0, getenv("C17_SHOW") != nullptr);
+    auto cpu_children = []() { struct rusage ru; getrusage(RUSAGE_CHILDREN, &ru); return ru.ru_utime.tv_sec + ru.ru_stime.tv_sec + 1e-6 * (ru.ru_utime.tv_usec + ru.ru_stime.tv_usec); };
+    double tp0 = cpu_children();
+    ChildResult r = run_child([&](int wfd) { return child_fit(wfd, fc); }, 2400., 0, getenv("C17_SHOW") != nullptr);
     C.eval();
+    if (const char* pf = getenv("C17_PROFILE"))
+    {  // measurement aid (menu balancing): one line per fit with its CPU time
+      double ms = (cpu_children() - tp0) * 1000.;  // CPU time of the child: independent of the machine load
+      if (FILE* f = fopen(pf, "a")) { fprintf(f, "%d %d %d %d %d %d %d %d %.1f %llu\n", fc.vs.nvar, fc.vs.kind, fc.vs.vp, fc.istruct, fc.icons, fc.iopt, fc.wmode, fc.maxiter, ms, (unsigned long long)id); fclose(f); }
+    }
     std::string stage = "setup";
     bool anyfit = false, failed = false;
     std::stringstream ss(r.data);
@@ -522,13 +486,15 @@ static void run_fit_part(Ctx& C, int nvar)
     {
       bool cpu = r.kind == ChildResult::SIGNALED && (r.code == SIGXCPU || r.code == SIGKILL);
       if (cpu || r.kind == ChildResult::TIMEOUT)
-        C.violation("hang:" + stage + ":" + sk + ":" + (fc.iopt == 6 ? "foxleg" : "goulard"), "no termination within 200 s of CPU time (stage " + stage + "): " + what0, kase);
+        C.violation("hang:" + stage + ":" + sk + ":" + (fc.iopt == 6 ? "foxleg" : "goulard"), "no termination within 600 s of CPU time (stage " + stage + "): " + what0, kase);
       else if (r.kind == ChildResult::EXITED && (r.code == 95 || r.code == 94 || r.code == 96) && stage == "fit")
       {
         bool sillcons = fc.icons == 1 || fc.icons == 2 || fc.icons == 6;
-        C.violation(std::string("fit:uncaught-exception:") + (fc.vs.nvar > 1 ? "multivariate:" : "monovariate:") + (sillcons ? "sill-constraint" : fc.iopt == 6 ? "goulard-off" : "other"),
+        C.violation(std::string("fit:uncaught-exception:") + (fc.vs.nvar > 1 ? std::string("multivariate:") + (sillcons ? "sill-constraint" : fc.iopt == 6 ? "goulard-off" : "other") : "monovariate:" + sk),
                     "a C++ exception escapes Model::fit instead of an error code (child exit " + std::to_string(r.code) + "): " + what0, kase);
       }
+      else if (r.kind == ChildResult::SIGNALED && stage == "fit" && fc.iopt == 3)
+        C.violation("crash:fit:" + r.describe() + ":lock_samerot", "Model::fit crashes (" + r.describe() + ") with the shared-rotation option: " + what0, kase);
       else
         C.violation("crash:" + stage + ":" + r.describe() + ":" + sk, "the child died (" + r.describe() + ") during " + stage + ": " + what0, kase);
       C.outcome("child:" + r.describe());
@@ -537,7 +503,173 @@ static void run_fit_part(Ctx& C, int nvar)
     if (anyfit) C.nontrivial(id);
     (void)failed;
     if (id % 4001 == 0) C.sample("{\"id\":" + std::to_string(id) + ",\"case\":" + jstr(what0) + ",\"result\":" + jstr(r.data.substr(0, 200)) + "}");
-  });
+}
+
+static void run_fit_part(Ctx& C, int nvar)
+{
+  auto vm = vario_menu(C.thorough(), nvar);
+  // configuration menu: (constraint set, option set) pairs and Option_AutoFit pairs
+  std::vector<std::pair<int, int>> co;
+  if (C.thorough() && nvar == 1) { for (int c = 0; c < 10; c++) for (int o = 0; o < 8; o++) co.push_back({c, o}); }
+  else if (C.thorough())
+  {
+    for (int o = 0; o < 8; o++) co.push_back({0, o});
+    for (int c = 1; c < 10; c++) { co.push_back({c, 0}); if (c != 7) co.push_back({c, 6}); co.push_back({c, 5}); }
+  }
+  else if (nvar == 1)
+  {
+    for (int o = 0; o < 8; o++) co.push_back({0, o});
+    for (int c = 1; c < 10; c++) co.push_back({c, 0});
+    co.push_back({1, 6}); co.push_back({6, 6}); co.push_back({3, 5}); co.push_back({9, 5}); co.push_back({9, 3}); co.push_back({9, 7});
+  }
+  else { for (int o : {0, 5, 6}) co.push_back({0, o}); for (int c : {1, 2, 6, 7, 3}) co.push_back({c, 0}); }
+  std::vector<std::pair<int, int>> am = {{2, 1000}, {0, 1}};
+  if (C.thorough()) am = {{2, 1000}, {0, 1}, {1, 1000}, {0, 1000}, {3, 50}};
+  if (nvar > 1) am.resize(C.thorough() ? 3 : 1);
+  Space sp;
+  sp.axis("vario", (int)vm.size()).axis("structures", 10).axis("config", (int)co.size()).axis("autofit", (int)am.size());
+  const bool th = C.thorough();
+
+  // ---- cost classes (measured on an idle machine, see mutants/C17/COSTS.txt): everything costs 3-30 ms per fit except
+  //   heavyM: a MATERN structure iterated to convergence (Bessel functions in every Gauss-Newton step): 0.3-5 s mono-variate, 8-24 s multivariate
+  //   heavyC: constant-total-sill constraint on NUG+EXP+SPH with 2-3 variables: 25-50 s (2 variables, two directions), 120-135 s (3 variables)
+  // The heavy classes are kept on explicit small sub-menus; every case gets a cost estimate so that the shards can be balanced.
+  auto heavyM = [&](const FitCase& fc) {
+    if (fc.istruct != 8 || fc.maxiter < 1000) return false;
+    if (fc.vs.nvar == 1) return true;
+    return fc.icons == 0 || fc.icons == 3 || fc.icons == 7 || fc.icons == 9;  // the sill / param / contradictory sets end quickly with 2+ variables
+  };
+  auto heavyC = [&](const FitCase& fc) { return fc.vs.nvar > 1 && fc.icons == 7 && fc.istruct == 3 && (fc.vs.nvar == 3 || (fc.vs.kind == 0 && fc.vs.vp == 2)); };
+  auto estimate = [&](const FitCase& fc) -> double {
+    if (heavyC(fc)) return fc.vs.nvar == 3 ? 130. : 25.;
+    if (heavyM(fc))
+    {
+      if (fc.vs.nvar == 3) return fc.vs.vp == 0 ? 11. : 20.;
+      if (fc.vs.nvar == 2) return 8.;
+      if (fc.vs.kind == 1) return 2.2;
+      return fc.vs.vp == 0 ? 0.35 : fc.vs.vp == 1 ? 1.3 : fc.vs.vp == 2 ? 2.2 : 4.6;
+    }
+    if (fc.istruct == 3 && fc.maxiter >= 1000)
+    {  // NUG+EXP+SPH: a few variograms need seconds (up to 9 s for some bivariate synthetic ones)
+      if (fc.vs.nvar > 1) return fc.vs.kind == 2 ? 0.6 : 0.15;
+      return fc.vs.kind == 0 && fc.vs.vp == 3 ? 0.7 : 0.05;
+    }
+    return 0.008;
+  };
+  auto is_pair = [](const VarioSpec& v, int p0, int p1) { return v.pat[0] == p0 && v.pat[1] == p1; };
+  // ---- the menu of the tier: true when the case belongs to it (regular sub-menus, nothing is drawn at random)
+  auto accept = [&](const FitCase& fc, const std::vector<int>& idx) -> bool {
+    const VarioSpec& v = fc.vs;
+    bool dflt = idx[2] == 0;
+    int a = idx[3], cfg = idx[2];
+    if (heavyC(fc))
+    {
+      if (!th || a != 0) return false;
+      if (v.nvar == 3) return v.pat[0] == 6 && fc.iopt == 0;                                               // 2 fits (one / two directions)
+      return (is_pair(v, 0, 1) || is_pair(v, 6, 8) || is_pair(v, 2, 3)) && (fc.iopt == 0 || fc.iopt == 5);  // 6 fits
+    }
+    if (heavyM(fc))
+    {
+      if (v.nvar == 1)
+      {
+        if (!th)
+        {
+          if (v.kind == 1) return dflt && a == 0 && (v.code % 16) == 5;                                                       // 16 fits
+          return v.vp == 0 && a == 0 && (dflt || ((fc.icons == 5 || fc.icons == 3) && fc.iopt == 0 && (v.pat[0] % 2) == 0));  // 8 + 8 fits
+        }
+        if (v.kind == 1)
+          return (dflt && a == 0 && (v.empty < 0 || v.empty == 1)) || (dflt && (a == 2 || a == 3) && v.empty < 0 && (v.code % 4) == 0) ||
+                 (!dflt && a == 0 && v.empty < 0 && (v.code % 64) == (cfg % 64));
+        return a == 0 && (dflt || ((v.pat[0] == 0 || v.pat[0] == 6) && v.vp != 3));
+      }
+      if (v.nvar == 2)
+      {
+        if (!th) return v.kind == 2 && dflt && (v.code == 40 || v.code == 0);  // 2 fits
+        if (v.kind == 2) return a == 0 && (v.code % 9) == 0 && (fc.icons == 0 || fc.iopt == 0);
+        return a == 0 && fc.icons == 0 && (fc.iopt == 0 || fc.iopt == 5) && v.vp != 1 && (is_pair(v, 0, 1) || is_pair(v, 6, 8));
+      }
+      // three variables (11 s with one direction, 20 s with two)
+      if (!th) return false;
+      return a == 0 && (v.pat[0] == 6 || v.pat[0] == 0) && ((fc.icons == 0 && (fc.iopt == 0 || fc.iopt == 5)) || ((fc.icons == 3 || fc.icons == 9) && fc.iopt == 0));
+    }
+    // ---- the cheap bulk: every variogram meets every structure set with the default configuration and the first Option_AutoFit pair;
+    // the other configurations are taken on regular sub-menus of the synthetic variograms and on the genuine ones
+    if (v.kind == 1)
+    {
+      if (!th && fc.icons == 5 && fc.istruct == 9 && fc.iopt == 0 && a == 0) return true;  // param<=1 is only judged on structures with a third parameter
+      int stride = th ? 4 : (fc.iopt == 0 ? 8 : 32);
+      if (!dflt && (v.code % stride) != (cfg % stride)) return false;
+      if (!dflt && a != 0) return false;
+      if (!th && a != 0 && (v.code % 4) != 0) return false;
+      if (v.empty >= 0 && a >= 2) return false;
+      return true;
+    }
+    if (v.kind == 2)
+    {
+      int stride = th ? 4 : 9;
+      if (!dflt && (v.code % stride) != (cfg % stride)) return false;
+      return a == 0;
+    }
+    if (!th && !dflt)
+    {
+      if (a != 0) return false;
+      bool anglecase = fc.icons == 9 && v.vp == 3;  // a rotation constraint is only judged when the rotation is inferred (4 directions)
+      if (!anglecase && (v.pat[0] % 4) != 0) return false;
+    }
+    if (!th && nvar == 2 && v.vp == 1) return false;
+    if (th && a >= 2 && !dflt) return false;
+    return true;
+  };
+
+  // ---- enumeration: the accepted cases are dealt to the shards by decreasing estimated cost (longest first, each to the least loaded
+  // shard): the assignment is a pure function of the menu, identical in every shard, and every shard starts with its expensive cases
+  struct Acc { uint64_t id; double est; };
+  std::vector<Acc> mine;
+  auto make_case = [&](const std::vector<int>& idx) { return FitCase{vm[idx[0]], idx[1], co[idx[2]].first, co[idx[2]].second, am[idx[3]].first, am[idx[3]].second}; };
+  if (!C.only_case.empty())
+  {
+    uint64_t id = strtoull(C.only_case.c_str(), nullptr, 10);
+    if (id < sp.size()) mine.push_back({id, 0.});
+    C.ps().space += 1;
+  }
+  else
+  {
+    std::vector<Acc> all;
+    uint64_t nheavy = 0;
+    for (uint64_t id = 0; id < sp.size(); id++)
+    {
+      std::vector<int> idx = sp.decode(id);
+      FitCase fc = make_case(idx);
+      if (!accept(fc, idx)) continue;
+      all.push_back({id, estimate(fc)});
+      if (heavyM(fc) || heavyC(fc)) nheavy++;
+    }
+    std::stable_sort(all.begin(), all.end(), [](const Acc& x, const Acc& y) { return x.est > y.est; });
+    std::vector<double> load(C.nshards, 0.);
+    for (auto& c : all)
+    {
+      int best = 0;
+      for (int k = 1; k < C.nshards; k++) if (load[k] < load[best] - 1e-12) best = k;
+      load[best] += c.est;
+      if (best == C.shard) mine.push_back(c);
+    }
+    C.ps().space += all.size();
+    if (C.shard == 0)
+    {
+      double tot = 0; for (double l : load) tot += l;
+      C.note("menu: " + std::to_string(all.size()) + " fits (" + std::to_string(nheavy) + " of the heavy classes) out of a product of " + std::to_string(sp.size()) +
+             "; estimated " + std::to_string((int)tot) + " CPU-s = " + std::to_string((int)(tot / C.nshards)) + " s per shard");
+    }
+  }
+  if (getenv("C17_MENU_ONLY")) { for (auto& n : C.notes) fprintf(stderr, "%s\n", n.c_str()); return; }  // (sizing aid)
+  for (auto& mc : mine)
+  {
+    if (C.only_case.empty() && C.expired()) break;
+    std::vector<int> idx = sp.decode(mc.id);
+    FitCase fc = make_case(idx);
+    C.cur_case = std::to_string(mc.id);
+    run_one_fit(C, fc, mc.id);
+  }
 }
 
 // the small parts first: under a deadline the truncation falls on the largest menu
